@@ -324,6 +324,99 @@ def funnel(run, m, F, E, L):
     return n, direct, clean - core
 
 
+def to_string_rule(run, m, F, E, L):
+    """R16.4: to_string(utf8_encoded, validation) hands exactly the stream's bytes (raw_buffer(), size()) to the UTF-8 constructor when
+    they are UTF-8 - with the requested validation mode, or marked valid when the mode is assume_valid - and to the Latin-1 transcoder
+    when they are not, whatever the validation mode."""
+    from ..interp import Interp, Hooks
+    from ..state import State
+    fs = [m.func(x) for x in F.lib if m.func(x).dem.startswith('ST::string_stream::to_string(bool, ST::utf_validation_t) const')]
+    if not fs:
+        run.ob('R16.4', 'string_stream::to_string', None, 'to_string(bool, utf_validation_t) not found: not analysed')
+        return 0
+    f = fs[0]
+    modes = m.enums.get('ST::utf_validation_t') or {}
+    av = [v for k, v in modes.items() if k.endswith('assume_valid')]
+
+    class H(Hooks):
+        max_depth = 6
+
+        def call(self2, I, st, inst, name, args):
+            if name is None:
+                return None
+            d = m.dem(name)
+            mt = re.match(r'^ST::string::(from_utf8|from_latin_1|from_validated)\(char const\*, unsigned long', d)
+            if mt:
+                st.ev('make', inst, mt.group(1), list(args))
+                return [(st, None)]
+            return None
+    I = Interp(m, F, E, H())
+    st = State()
+    this = own.make_stream(I, st, L, 'this', 'heap')
+    BL = own.buffer_layout(m, 'char')
+    ret = own.make_buffer(I, st, BL, 'ret', 'undef')
+    utf8 = I.fresh_int(st, 8, 'utf8_encoded', hi=1)
+    mode = I.fresh_int(st, 32, 'validation', lo=min(modes.values()) if modes else 0, hi=max(modes.values()) if modes else 2)
+    probs, und = [], []
+    try:
+        outs = I.run(I.start(f, [PtrV(ret), PtrV(this), utf8, mode], st))
+    except Exception as e:
+        outs = []
+        und.append('not interpreted: %s' % (str(e)[:80],))
+    e0 = st.flags.get('entry:this') or {}
+    nret = 0
+    for o in outs:
+        if o.kind != 'ret':
+            continue
+        nret += 1
+        s2 = o.st
+        mk = [e for e in s2.events if e[0] == 'make']
+        if len(mk) != 1:
+            und.append('%d string constructions on a returning path' % len(mk))
+            continue
+        kind, a = mk[0][2], mk[0][3]
+        is_utf8 = s2.is_ge0(utf8.lin - 1)
+        if is_utf8 is None:
+            # the path did not look at the flag: it must be right for both values
+            cases = []
+            for val in (True, False):
+                s3 = s2.clone()
+                if s3.assume_ge0(utf8.lin - 1 if val else -utf8.lin):
+                    cases.append(val)
+            if cases == [True, False] or cases == [False]:
+                is_utf8 = False if kind != 'from_latin_1' else True      # judge the value for which this constructor is the wrong one
+            elif cases == [True]:
+                is_utf8 = True
+        # (sret, data, size[, validation])
+        data, size = a[1], a[2]
+        sto, sz = e0.get('storage'), e0.get('size')
+        if sto is not None and not (isinstance(data, PtrV) and data.obj == sto.obj and s2.is_eq0(data.off - sto.off) is True):
+            probs.append('the string is built from %r, not from raw_buffer()' % (data,))
+        if sz is not None and isinstance(size, IntV) and s2.is_eq0(I.as_u(s2, size) - sz) is not True:
+            probs.append('the string is built from %r bytes, not size()' % (size,))
+        if is_utf8 is False:
+            if kind != 'from_latin_1':
+                wit = s2.find_model([mode.lin], lambda v: True)
+                probs.append('the bytes are Latin-1 (utf8_encoded == false) but are handed to %s, not transcoded%s' % (
+                    kind, '; e.g. validation=%s' % (wit or {}).get(mode.lin.single_atom()[0]) if wit else ''))
+        elif is_utf8 is True:
+            if kind == 'from_latin_1':
+                probs.append('the bytes are UTF-8 but are transcoded as Latin-1')
+            elif kind == 'from_utf8':
+                if len(a) < 4 or not (isinstance(a[3], IntV) and s2.is_eq0(a[3].lin - mode.lin) is True):
+                    probs.append('from_utf8 is not given the validation mode of the call')
+            elif kind == 'from_validated':
+                if not (av and s2.is_eq0(mode.lin - av[0]) is True):
+                    probs.append('the bytes are marked valid although the requested mode may not be assume_valid')
+        else:
+            und.append('path does not decide utf8_encoded')
+    if nret == 0 and not und:
+        und.append('no returning path explored')
+    run.ob('R16.4', short(f.dem), False if probs else (None if und else True), probs[0] if probs else (und[0] if und else
+           'UTF-8 bytes -> from_utf8(raw_buffer(), size(), validation); Latin-1 bytes -> from_latin_1(raw_buffer(), size())'), loc=fn_loc(f))
+    return 1
+
+
 def check(run):
     m = run.module()
     F = run.facts()
@@ -335,6 +428,7 @@ def check(run):
     L = own.stream_layout(m)
     run.need(L is not None, 'layout of ST::string_stream not recognised (expected {char*, size_t, size_t, char[N]})')
     nf, direct, derived = funnel(run, m, F, E, L)
+    run.counts['to_string dispatch'] = to_string_rule(run, m, F, E, L)
     run.floor('operator<< overloads', nf, 20)
     ms = [f for f in owner_methods(m, F, E, L)]
     # members that write the stream only through verified members inherit the invariant from them (induction over operations);
